@@ -18,6 +18,7 @@ import (
 
 	"github.com/martian-lang/martian/martian/core"
 	"github.com/martian-lang/martian/martian/syntax"
+	"github.com/martian-lang/martian/martian/util"
 	"github.com/martian-lang/martian/martian/vshim"
 
 	"verif/lib/progen"
@@ -71,6 +72,11 @@ type Options struct {
 	Resume bool
 	PsDir  string
 	Pid    int
+	// SignalAt > 0: a handled termination signal arrives just before the
+	// SignalAt-th file-system effect.  As in util.SetupSignalHandlers the
+	// process keeps running while a critical section is open; once none is,
+	// the registered handlers run and the process is dead.
+	SignalAt int
 	// Torn: what the crashing write leaves behind: 0 nothing (default),
 	// 1 an empty file, 2 the first half of the data.
 	Torn int
@@ -135,6 +141,11 @@ type Result struct {
 	DebugNotes     []string
 	// TopOutsPre is the top-level _outs before post-processing.
 	TopOutsPre string
+	// SignalEffects are the effects of the signal handlers; SignalDelay is
+	// the number of effects the process still performed inside critical
+	// sections after the signal arrived.
+	SignalEffects []string
+	SignalDelay   int
 	// CompiledOK: the invocation was refused although the compiler accepts
 	// the program.
 	CompiledOK bool
@@ -307,9 +318,28 @@ func Run(p *progen.Program, sched Schedule, opts Options) (res *Result) {
 	}
 	crashed := false
 	tornArmed := false
+	inSignal := false
+	util.VerifResetSignalHandlers()
 	vshim.FsHook = func(site, op, path string) bool {
+		if inSignal {
+			// an effect of a signal handler itself
+			res.SignalEffects = append(res.SignalEffects, op+" "+strings.TrimPrefix(path, dir)+" @"+site)
+			return true
+		}
 		if crashed {
 			return false
+		}
+		if opts.SignalAt > 0 && res.Effects+1 >= opts.SignalAt {
+			inSignal = true
+			dead := util.VerifDeliverSignal()
+			inSignal = false
+			if dead {
+				res.Effects++
+				res.EffectLog = append(res.EffectLog, op+" "+strings.TrimPrefix(path, dir)+" @"+site)
+				res.SignalDelay = res.Effects - opts.SignalAt
+				crashed = true
+				return false
+			}
 		}
 		res.Effects++
 		if opts.CrashAt > 0 || len(res.EffectLog) < 4000 {
